@@ -72,6 +72,78 @@ def _cancel_reporting(spec: dict, rng) -> dict:
     return spec
 
 
+TEARDOWN_SECS = [0.125, 0.25, 0.375, 0.625, 0.75, 1.25, 2.5]  # both sides of the control loop's worker-cancel grace (not read from it)
+TEARDOWN_MODES = ["finally", "swallow", "shield", "stubborn"]
+ENDINGS = ["result", "failure", "cancel", "timeout"]
+
+
+def gen_teardown_spec(rng) -> dict:
+    """One run with 1..3 helper steps still at work when the run ends (result / step failure / user cancel / timeout), each
+    of which reacts to its cancellation with an ASYNCHRONOUS teardown (0.125 .. 2.5 virtual seconds; interrupted by, cut short
+    by, or deaf to a further cancellation; or swallowing the first one) and then says a last word on the stream.  After the
+    run's end the loop is kept going until every body has come to its end (`drain_after_end`)."""
+    ending = rng.choice(ENDINGS)
+    nhelp = rng.choice([1, 1, 2, 3])
+    helper_tys = [5, 6, 7][:nhelp]
+    main: dict = {"name": "s00", "accepts": [0], "nw": 1, "script": []}
+    steps = [main]
+    for i, ty in enumerate(helper_tys):
+        main["script"].append(["send", ty, f"s{i + 1:02d}"])
+        script: list = [["on_cancel_teardown", rng.choice(TEARDOWN_SECS), rng.choice([8, 9, 10, 10, None]), rng.choice(TEARDOWN_MODES)]]
+        if rng.random() < 0.3:
+            script.append(["on_cancel_stream", 11])  # also reports at once when cancelled
+        if rng.random() < 0.6:
+            script.append(["stream", 9])
+        # mostly busy until the run ends; sometimes waiting for I/O the schedule may complete first (then it is simply done)
+        script.append(["block"] if rng.random() < 0.8 else ["gate"])
+        script.append(["ret", "none"])
+        steps.append({"name": f"s{i + 1:02d}", "accepts": [ty], "nw": rng.choice([1, 2]), "script": script})
+    if rng.random() < 0.4:
+        main["script"].append(["stream", 8])
+    spec: dict = {"steps": steps, "externals": [], "drain_after_end": 20}
+    if ending == "result":
+        main["script"] += [["gate"], ["ret", "stop"]]
+    elif ending == "failure":
+        main["script"] += [["gate"], ["fail_always", rng.randint(1, 9)]]
+        if rng.random() < 0.3:
+            main["retry"] = {"kind": "attempts", "n": 2, "wait": rng.choice([0, 1])}
+    elif ending == "cancel":
+        main["script"] += [["block"], ["ret", "stop"]]
+        spec["externals"] = [{"op": "cancel", "after_quiet": rng.randint(1, 3)}]
+    else:
+        main["script"] += [["block"], ["ret", "stop"]]
+        spec["timeout"] = rng.choice([1, 2, 3])
+    return spec
+
+
+def _teardown_runs(env: Env, out: Outcome, n: int) -> None:
+    """steps whose cancellation teardown takes a while (see gen_teardown_spec): nothing is published after the terminal event --
+    not during the run's end and not later -- and no step of the run is still at work once the outcome is available; the runs
+    also go through the runner correspondence"""
+    rng = random.Random(env.rng.randrange(1 << 30))
+    jobs = [{"spec": sp, "seed": 0} for item in suite.load_corpus("C04/teardown") for sp in item["specs"]]
+    jobs += [{"spec": gen_teardown_spec(rng), "seed": rng.randrange(1 << 30)} for _ in range(n)]
+    traces = suite.live_runs(env, out, 0, [monitors.mon_c04], extra_specs=jobs, check_runner=False)
+    # (K) the engine model's clock is integral: a run whose reducer is called again after a cancel grace that was used up
+    # (the StopEvent's tick at +0.5 s) cannot be encoded; all others go through the runner correspondence
+    integral = [tr for tr in traces if all(float(c.now).is_integer() for c in tr.calls)]
+    out.count("teardown:runner_correspondence", len(integral))
+    out.count("teardown:runner_correspondence_skipped_fractional_time", len(traces) - len(integral))
+    suite.runner_corr(out, integral)
+    for tr in traces:
+        if not tr.spec.get("drain_after_end"):
+            continue  # (a replayed case of another family)
+        ending = {"result": "result", "error": "failure", "cancelled": "cancel", "timeout": "timeout"}.get(tr.outcome[0], tr.outcome[0])
+        out.count("teardown:ending:" + ending)
+        for t in tr.teardowns:
+            side = "longer_than_half_a_second" if t["secs"] > 0.5 else "shorter_than_half_a_second"
+            out.count(f"teardown:{ending}:{t['mode']}:{side}:{t['how']}" + (":wrote" if t["wrote"] else ""))
+        if any(t["secs"] > 0.5 for t in tr.teardowns) and any(t["secs"] < 0.5 for t in tr.teardowns):
+            out.count("teardown:both_sides_in_one_run")
+        if tr.teardowns:
+            out.nontrivial(("teardown", repr(tr.spec), tuple(tr.actions)))
+
+
 def _reuse_runs(env: Env, out: Outcome, n: int) -> None:
     """histories of 2..3 runs on one runtime that reuse an explicit run_id (earlier handlers kept or dropped, their streams
     unread / partly read): the last run is refused or is a run of its own (own events only, one matching terminal event, last)"""
@@ -170,4 +242,5 @@ def run(env: Env) -> Outcome:
     _reuse_runs(env, out, env.budget(150, 3000))
     _overlap_runs(env, out, env.budget(220, 3000))
     _gate_runs(env, out, env.budget(250, 4000))
+    _teardown_runs(env, out, env.budget(120, 2400))
     return out
